@@ -13,6 +13,7 @@ def expect_callsign(codes):
 
 class C07(PropBase):
     id = "C07"
+    corr_fields = ['ais', 'cat']
     lean_modules = ["SqModel.Props.C07", "SqModel.Proofs.Bridge"]
     extractors = ["trans"]
     rule = ("every 6-bit code 0..63 in each of the 8 character positions (512 frames) plus random 48-bit strings, TC 1..4 x "
